@@ -271,6 +271,56 @@ fn huge_fork_probe(rep: &mut Report, seed: u64, r: usize, by_rc: bool, steps: us
     }
 }
 
+// ------------------------------------------------------------------ a zero-sized source type
+// A source whose TYPE has no size but whose state lives outside the value (here a thread-local
+// position; in the field: a hardware register, a global): "the value holds no state" does not
+// mean the signal has none. Both branches must still see every frame exactly once.
+thread_local! {
+    static ZST_POS: Cell<u64> = const { Cell::new(0) };
+}
+#[derive(Clone, Copy)]
+struct ZstSource;
+impl Signal for ZstSource {
+    type Frame = f64;
+    fn next(&mut self) -> f64 {
+        let p = ZST_POS.with(|c| c.replace(c.get() + 1));
+        gen_frame(p)
+    }
+}
+struct ZstProbe;
+impl ZstProbe {
+    fn pulls(&self) -> u64 {
+        ZST_POS.with(|c| c.get())
+    }
+}
+fn zst_source_fork(rep: &mut Report, seed: u64) {
+    assert_eq!(std::mem::size_of::<ZstSource>(), 0);
+    for (k, cap) in [1usize, 2, 5].into_iter().enumerate() {
+        for by_rc in [false, true] {
+            let mut rng = Rng::derive(seed, &[123, cap as u64, by_rc as u64]);
+            let sched = random_schedule(&mut rng, cap, 60);
+            let case = || format!("cap={};mode=Zst{};store=vec;len=-1;sched={}", cap, if by_rc { "Rc" } else { "Ref" }, sched_str(&sched));
+            let r = vmon::catch(std::panic::AssertUnwindSafe(|| {
+                ZST_POS.with(|c| c.set(0));
+                let probe = ZstProbe;
+                let mut model = Model { a: 0, b: 0, cap: cap as u64, last_sign: 0, len: None };
+                let mut fork = ZstSource.fork(ring_buffer::Bounded::from_raw_parts(k % cap, 0, vec![0f64; cap]));
+                if by_rc {
+                    let (mut a, mut b) = fork.by_rc();
+                    drive!(a, b, sched, model, probe, rep, case, 0)
+                } else {
+                    let (mut a, mut b) = fork.by_ref();
+                    drive!(a, b, sched, model, probe, rep, case, 0)
+                }
+            }));
+            if let Err(m) = r {
+                rep.violation("fork|panic", format!("zero-sized source, cap {}: panicked: {}", cap, m), case());
+            }
+            rep.hit("zero_sized_source_type");
+        }
+    }
+}
+
 // ------------------------------------------------------------------ Fork::clone mid-stream
 /// A `Fork` is `Clone`; cloning it (the only way to split it by_rc and keep it) must carry the
 /// whole shared state: source position, queued frames and WHOSE they are. One step = borrow the
@@ -461,6 +511,11 @@ fn main() {
         let sched: Vec<bool> = m["sched"].chars().map(|c| c == 'A').collect();
         let ms = m["mode"].as_str();
         let num = |s: &str| -> usize { s.trim_matches(|c: char| !c.is_ascii_digit()).parse().unwrap_or(0) };
+        if ms.starts_with("Zst") {
+            zst_source_fork(&mut rep, cli.seed);
+            flush(&mut rep);
+            finish(&cli, rep, t0);
+        }
         if ms.starts_with("RcDrop") {
             eprintln!("CASE {}", cs);
             let l: i64 = m.get("len").map(|x| x.parse().unwrap()).unwrap_or(-1);
@@ -489,6 +544,8 @@ fn main() {
     let lean = cli.stage == "miri";
     match cli.stage.as_str() {
         "main" | "release" | "asan" => {
+            rep.oblige("zero_sized_source_type", 1);
+            zst_source_fork(&mut rep, cli.seed);
             rep.oblige("clone_conformance_scripts", 1);
             fork_clone_conformance(&mut rep, cli.seed);
             rep.oblige("rc_handle_dropped", 1);
